@@ -529,6 +529,12 @@ class EpiSim(object):
                 AbstractContract.now = core.parse_t(op["t"])
                 self.fault("foreign_clock_write")
                 self.sink.records.append({"seq": self.sink.next_seq(), "kind": "clock", "t": core.parse_t(op["t"])})
+            elif name == "late_add":
+                # somebody hands the transmitter one more (unobserved, out-of-range) event after the environment was built
+                h = self.handles[op.get("env", 0)]
+                last = core.parse_t(h.spec["grid"][-1])
+                h.transmitter.add_events([world.EvLate(to_time(core.iso(last + timedelta(hours=1)), h.spec.get("ts_type", "datetime")), 0)])
+                self.fault("events_added_after_construction")
             elif name == "draw":
                 np.random.random(op.get("n", 1))
                 random.random()
